@@ -65,7 +65,7 @@ m = {
    {"name":"c11","path":"sim/cmd/c11","serves_properties":["C11"],"kind_free_text":"seeded scheduler + scripted callback faults over yield-instrumented rtree"},
  ],
  "checks": checks,
- "notes": "Technique family: deterministic simulation with fault injection. Only C08, C10 and C11 have a schedule, fault sequence or history in their quantifier and a seam in the code; the other 17 properties are pure functions of their inputs and are listed under not_applicable (DESIGN.md sections 1 and 4). Exit codes: 0 held, 1 VIOLATION, 2 machinery trouble (never a VIOLATION line). `./check selftest` proves determinism (same seed => identical choice traces and results in six fresh processes at GOMAXPROCS 1, 4, 16). seeded/ holds 80 independently written changes (79 of 81 written end in a VIOLATION with a replay file; one does not break its property; one is not handled), sensitivity/ 31 planned ones (22 breakages caught, 9 benign changes quiet); see DESIGN.md section 9.",
+ "notes": "Technique family: deterministic simulation with fault injection. Only C08, C10 and C11 have a schedule, fault sequence or history in their quantifier and a seam in the code; the other 17 properties are pure functions of their inputs and are listed under not_applicable (DESIGN.md sections 1 and 4). Exit codes: 0 held, 1 VIOLATION, 2 machinery trouble (never a VIOLATION line). `./check selftest` proves determinism (same seed => identical choice traces and results in six fresh processes at GOMAXPROCS 1, 4, 16). seeded/ holds 89 independently written changes (of 90 written, 88 end in a VIOLATION with a replay file - including all 9 of a held-out wave run against the frozen checks; one does not break its property; one is not handled), sensitivity/ 31 planned ones (22 breakages caught, 9 benign changes quiet); see DESIGN.md section 9.",
  "not_applicable": [{"property_id":k,"reason":v} for k,v in sorted(na.items())] + [
    {"property_id":k,"reason":"engine under construction in this session; see DESIGN.md section 3"} for k in ("C08","C10") if k not in claimed],
 }
